@@ -1,0 +1,58 @@
+//! Verification hooks (cargo feature `verif-hooks`): plain data types and a thread-local trace
+//! sink. Nothing here changes the behaviour of the library.
+
+use std::cell::RefCell;
+
+/// A boundary feature, decoded.
+#[derive(Clone, Debug, PartialEq, Eq, Hash, PartialOrd, Ord)]
+pub enum VerifFeature {
+    /// Character n-gram starting `rel_position` characters after the boundary.
+    CharNgram {
+        /// n-gram
+        ngram: String,
+        /// relative position
+        rel_position: isize,
+    },
+    /// Character type n-gram starting `rel_position` characters after the boundary.
+    TypeNgram {
+        /// n-gram
+        ngram: Vec<u8>,
+        /// relative position
+        rel_position: isize,
+    },
+    /// Dictionary word feature: `position` is 0 = left, 1 = inside, 2 = right.
+    DictWord {
+        /// length bucket
+        length: usize,
+        /// 0 = left, 1 = inside, 2 = right
+        position: u8,
+    },
+}
+
+/// What `Trainer::train` and the tag trainer computed (quantised).
+#[derive(Clone, Debug, Default)]
+pub struct VerifTrainTrace {
+    /// Quantised bias of the boundary model.
+    pub bias: i32,
+    /// Labels in the learner's order.
+    pub labels: Vec<i32>,
+    /// Quantised weight of every boundary feature (zero weights included).
+    pub weights: Vec<(VerifFeature, i32)>,
+    /// Tag biases: (token, category, class, quantised bias).
+    pub tag_biases: Vec<(String, usize, usize, i32)>,
+    /// Tag weights: (token, category, class, feature, quantised weight), zero weights included.
+    pub tag_weights: Vec<(String, usize, usize, VerifFeature, i32)>,
+}
+
+thread_local! {
+    static TRACE: RefCell<VerifTrainTrace> = RefCell::new(VerifTrainTrace::default());
+}
+
+/// Takes the trace recorded by the last training on this thread.
+pub fn verif_take_train_trace() -> VerifTrainTrace {
+    TRACE.with(|t| core::mem::take(&mut *t.borrow_mut()))
+}
+
+pub(crate) fn with_trace<F: FnOnce(&mut VerifTrainTrace)>(f: F) {
+    TRACE.with(|t| f(&mut t.borrow_mut()));
+}
